@@ -41,7 +41,7 @@ func init() {
 	register("C01", func(tier string) CheckSpec {
 		budget := 280 * time.Second
 		if tier == "thorough" {
-			budget = 20*time.Minute
+			budget = 20 * time.Minute
 		}
 		return CheckSpec{Level: "model_checking", Rule: searchRule, Assumptions: xa, Budget: budget, Units: units(tier),
 			MustSee: []string{"vsc-packet-produced", "batched-delivery", "late-open", "packets-pending-after-block", "consumer-block-with-set:0", "consumer-block-with-set:2", "clients-expired"}}
@@ -49,7 +49,7 @@ func init() {
 	register("C12", func(tier string) CheckSpec {
 		budget := 280 * time.Second
 		if tier == "thorough" {
-			budget = 20*time.Minute
+			budget = 20 * time.Minute
 		}
 		return CheckSpec{Level: "model_checking", Rule: searchRule, Assumptions: xa, Budget: budget, Units: append(units(tier), c12Extra(tier)...),
 			MustSee: []string{"vsc-packet-produced", "consumer-block-with-set:2"}}
